@@ -15,7 +15,7 @@ func init() {
 		"(R2) the decision table of Update over {log known, candidate parses, tx opens, stored row read / NotFound, stored STH parses, size order, roots equal, proof verifies, store, sign}: setSTH executes exactly when the log is known, the candidate verified and either nothing is stored (trust on first use) or the candidate is strictly larger and the consistency proof verified; equal size ⇒ no write, error iff roots differ; smaller ⇒ error; the three outcomes of the read (row read / nothing stored / read failed) are told apart by the nil test of the read error or by its status code (OK, NotFound), and getLatestSTH answers NotFound only when the scan reported sql.ErrNoRows — every other failure of the read keeps a code that Update refuses, so a transient read failure is never taken for first use; "+
 		"(R3) VerifyConsistency gets (hasher, prev.TreeSize, next.TreeSize, proof, prev root, next root) in that order, the equal-size test compares the two roots, setSTH stores the very bytes that were parsed under the requested log ID through the transaction that read the previous STH; "+
 		"(R4) every return of Update is (nil, error) for hard refusals, (held raw STH, FailedPrecondition) for stale/inconsistent candidates, (held raw STH, nil) for an identical one and signSTH(candidate) only after a successful store; GetSTH returns signSTH(parse(stored bytes)); "+
-		"(R5) parse returns an STH only for a configured log, after the JSON decoded, the log ID is absent (then filled in) or equal to the requested one and the log's verifier w.Logs[logID] accepted the signature over that same STH; signSTH signs tls.Marshal(*sth) with the witness key (SHA-256) and embeds the same *sth; the witness verifier checks over tls.Marshal(sth.SignedTreeHead) and accepts only if some signature verified; "+
+		"(R5) a verified tree head for (raw bytes, log ID) is an STH decoded from those bytes (JSON), whose log ID is absent (then filled in) or equal to the requested one, whose log signature the verifier w.Logs[logID] accepted over that same STH, and which nothing writes afterwards; parse returns only such a tree head, for a configured log; Update binds exactly two (the candidate from the request bytes, the held one from the stored row) and GetSTH one, each as parse(w, bytes, logID) or with the three checks written out in place — the decision tables of R2 take the outcome of either shape, and for the written-out shape every single check (not JSON, log ID undecodable, another log, bad log signature) is a refusal class of its own: with that check failed no setSTH / signSTH executes on ANY path, first use included; signSTH signs tls.Marshal(*sth) with the witness key (SHA-256) and embeds the same *sth; the witness verifier checks over tls.Marshal(sth.SignedTreeHead) and accepts only if some signature verified; "+
 		"(R6) HTTP update: FailedPrecondition ⇒ non-200 status and the held STH as body, other errors ⇒ error page without the body, success ⇒ body; getSTH writes nothing on error; "+
 		"(R7) the log map pairs LogID = base64(SHA-256(DER of PubKey)) with the verifier built from that same PubKey, and that map becomes w.Logs. "+
 		"NOT covered: transaction isolation under concurrent Updates (SQLite / database/sql semantics; Main's SetMaxOpenConns(1) is not checked), the proof verifier and signature primitives themselves, JSON/TLS encodings, that the bytes in the table were put there by this code.",
@@ -175,332 +175,10 @@ func c19Who(r *Run) {
 	}
 }
 
-// ---- R2 / R3 / R4: Update ----------------------------------------------------------------
-
-func c19Update(r *Run, fn *ssa.Function) {
-	sets := asInstrs(CallsTo(fn, c19Set))
-	signs := asInstrs(CallsTo(fn, c19Sign))
-	r.Rule("C19.R2")
-	r.Check("Update:calls", len(sets) >= 1 && len(signs) >= 1, r.FnPos(fn), fmt.Sprintf("%d setSTH and %d signSTH calls", len(sets), len(signs)))
-	if len(sets) == 0 || len(signs) == 0 {
-		return
-	}
-	prevRaw := c19Get + "#0"
-	// the equal-size test "the two root hashes are the same bytes", however it is written
-	// (bytes.Equal over the full arrays, or the array comparison == / !=)
-	rootTests := c19RootTests(r, fn)
-	rootsKey, rootsNe := "<equality test of the two SHA256RootHash arrays>", "F"
-	if len(rootTests) == 1 {
-		rootsKey, rootsNe = rootTests[0].Key, rootTests[0].Ne
-	}
-	type shape struct{ data, err string }
-	shapes := func(reach *Reach) []shape {
-		var out []shape
-		for _, ret := range reachableReturns(fn, reach) {
-			v := RetVals(ret)
-			d := r.D.D(v[0])
-			switch {
-			case d == "nil":
-			case glob(prevRaw, d):
-				d = "held"
-			case glob(c19Sign+"("+"p0, "+c19Next+"#0)#0", d):
-				d = "cosigned(next)"
-			}
-			e := errKind(v[1])
-			if e == "non" && glob("status.Errorf(9, *)", r.D.D(v[1])) {
-				e = "FailedPrecondition"
-			}
-			out = append(out, shape{d, e})
-		}
-		return out
-	}
-	// the outcome of reading the stored row — "read" (no error), "nothing stored" (an error
-	// with code NotFound) or "read failed" (any other error) — however Update tests it
-	readAtoms, readState, tellsNotFound := c19ReadDecision(r, fn)
-	atoms := []RuleAtom{
-		{Name: "known", Pat: "p0.Logs[p2]#1"},
-		{Name: "next", Pat: "nil?" + c19Next + "#1"},
-		{Name: "tx", Pat: "nil?(*sql.DB).BeginTx(*)#1"},
-	}
-	atoms = append(atoms, readAtoms...)
-	atoms = append(atoms, []RuleAtom{
-		{Name: "prev", Pat: "nil?" + c19Prev + "#1"},
-		{Name: "size", OrdA: c19Next + "#0.TreeSize", OrdB: c19Prev + "#0.TreeSize"},
-		{Name: "roots", Pat: rootsKey},
-		{Name: "proof", Pat: "nil?proof.VerifyConsistency(*)"},
-		{Name: "store", Pat: "nil?" + c19Set + "(*)"},
-		{Name: "sign", Pat: "nil?" + c19Sign + "(*)#1"},
-	}...)
-	classify := func(v map[string]string) string {
-		read := readState(v)
-		switch {
-		case read == "":
-			return "" // no error has this combination of nil-ness and status code
-		case v["known"] == "F":
-			return "unknown-log"
-		case v["next"] == "non":
-			return "candidate-rejected"
-		case v["tx"] == "non":
-			return "no-transaction"
-		case read == "failed":
-			return "read-failed"
-		case read == "nothing-stored":
-			return "first-use"
-		case v["prev"] == "non":
-			return "stored-unparsable"
-		case v["size"] == "<":
-			return "smaller"
-		case v["size"] == "=" && v["roots"] == rootsNe:
-			return "same-size-other-root"
-		case v["size"] == "=":
-			return "identical"
-		case v["proof"] == "non":
-			return "proof-rejected"
-		}
-		return "extension"
-	}
-	judge := func(class string, v map[string]string, reach *Reach) string {
-		wrote := len(reachableIns(sets, reach)) > 0
-		sh := shapes(reach)
-		if len(sh) == 0 {
-			return "no return reachable"
-		}
-		all := func(data, err string) string {
-			for _, s := range sh {
-				if s.data != data || s.err != err {
-					return fmt.Sprintf("may return (%s, error:%s); the property prescribes (%s, error:%s)", s.data, s.err, data, err)
-				}
-			}
-			return ""
-		}
-		switch class {
-		case "first-use", "extension":
-			if !wrote {
-				return "the accepted STH is not stored (no setSTH call executes)"
-			}
-			okSeen := false
-			for _, s := range sh {
-				switch {
-				case s.data == "nil" && (s.err == "non" || s.err == "FailedPrecondition"):
-				case s.data == "cosigned(next)" && s.err == "nil":
-					okSeen = true
-					if v["store"] != "nil" || v["sign"] != "nil" {
-						return "returns the cosigned STH although storing or signing failed"
-					}
-				default:
-					return fmt.Sprintf("may return (%s, error:%s) on the accepting path", s.data, s.err)
-				}
-			}
-			if v["store"] == "nil" && v["sign"] == "nil" && !okSeen {
-				return "no (cosigned(next), nil) return although store and sign succeeded"
-			}
-			return ""
-		}
-		if wrote {
-			return "setSTH may execute although the update must be refused"
-		}
-		switch class {
-		case "smaller", "same-size-other-root", "proof-rejected":
-			return all("held", "FailedPrecondition")
-		case "identical":
-			return all("held", "nil")
-		}
-		for _, s := range sh {
-			if s.data != "nil" || s.err == "nil" || s.err == "dyn" {
-				return fmt.Sprintf("may return (%s, error:%s); a hard refusal returns (nil, error)", s.data, s.err)
-			}
-		}
-		return ""
-	}
-	classes := []string{"unknown-log", "candidate-rejected", "no-transaction", "read-failed", "first-use", "stored-unparsable", "smaller", "same-size-other-root", "identical", "proof-rejected", "extension"}
-	if !tellsNotFound {
-		// the code of the read error is never compared with NotFound: there is no first-use
-		// class to judge, every non-nil read error is a failed read
-		classes = append(classes[:4:4], classes[5:]...)
-	}
-	r.ClassTable(fn, "Update", nil, atoms, classes, classify, judge)
-
-	// ---- R3: arguments
-	r.Rule("C19.R3")
-	if vc := r.OneCall(fn, "Update:VerifyConsistency", "proof.VerifyConsistency"); vc != nil {
-		for i, w := range []string{"g:rfc6962.DefaultHasher", c19Prev + "#0.TreeSize", c19Next + "#0.TreeSize", "p4", c19Prev + "#0.SHA256RootHash[:]", c19Next + "#0.SHA256RootHash[:]"} {
-			r.ExpectArg(vc, fmt.Sprintf("Update:VerifyConsistency.arg%d", i), i, w)
-		}
-	}
-	if len(rootTests) != 1 {
-		r.Fail("Update:roots-compared", r.FnPos(fn), fmt.Sprintf("expected exactly one equality test of two root hashes (bytes.Equal over the full arrays or ==) in %s, found %d", FuncName(fn), len(rootTests)))
-	} else {
-		eq := rootTests[0]
-		n, p := c19Next+"#0.SHA256RootHash", c19Prev+"#0.SHA256RootHash"
-		r.Check("Update:roots-compared.operands", glob(n, eq.TX) && glob(p, eq.TY) || glob(p, eq.TX) && glob(n, eq.TY), r.Where(eq.At), "equal-size test compares "+eq.TX+" with "+eq.TY)
-	}
-	var txAlloc *ssa.Alloc
-	if bt := r.OneCall(fn, "Update:BeginTx", "(*sql.DB).BeginTx"); bt != nil {
-		r.ExpectArg(bt, "Update:BeginTx.db", 0, "p0.db")
-		r.ExpectArg(bt, "Update:BeginTx.ctx", 1, "p1")
-	}
-	for _, sc := range sets {
-		c := sc.(ssa.CallInstruction)
-		a := baseAlloc(CallArgs(c)[1])
-		okTx := a != nil
-		if a != nil {
-			sts := WholeStores(a)
-			okTx = len(sts) > 0
-			for _, st := range sts {
-				okTx = okTx && glob("(*sql.DB).BeginTx(*)#0", r.D.D(st.Val))
-			}
-			if txAlloc == nil {
-				txAlloc = a
-			}
-			okTx = okTx && a == txAlloc
-		}
-		r.Check("Update:setSTH.tx", okTx, r.Where(c), "setSTH writes through the transaction opened by BeginTx: "+r.D.D(CallArgs(c)[1]))
-		r.ExpectArg(c, "Update:setSTH.logID", 2, "p2")
-		r.ExpectArg(c, "Update:setSTH.bytes", 3, "p3")
-	}
-	if g := r.OneCall(fn, "Update:getLatestSTH", c19Wit+".getLatestSTH"); g != nil {
-		m, recv := BoundMethod(CallArgs(g)[1])
-		r.Check("Update:read-in-tx", m == "(*database/sql.Tx).QueryRow" && recv != nil && txAlloc != nil && baseAlloc(recv) == txAlloc, r.Where(g),
-			"the previous STH is read with "+m+" bound to the same transaction")
-		r.ExpectArg(g, "Update:getLatestSTH.logID", 2, "p2")
-	}
-	for _, sg := range signs {
-		r.ExpectArg(sg.(ssa.CallInstruction), "Update:signSTH.sth", 1, c19Next+"#0")
-	}
-	np := 0
-	for _, pc := range CallsTo(fn, c19Wit+".parse") {
-		np++
-		r.ExpectArg(pc, "Update:parse.logID", 2, "p2")
-		r.ExpectArg(pc, "Update:parse.bytes", 1, "p3 || "+c19Get+"#0")
-	}
-	r.Floor("parse calls in Update", np, 2)
-	if fg := r.Fn(c19Wit + ".getLatestSTH"); fg != nil {
-		if q := r.OneCall(fg, "getLatestSTH:query", "dyn(p1)"); q != nil {
-			args := CallArgs(q)
-			el := ElemStores(AllocBehind(args[len(args)-1]))
-			ok := len(el[0]) == 1 && r.D.D(el[0][0]) == "p2"
-			r.Check("getLatestSTH:query.param", ok, r.Where(q), "the row is selected by the requested log ID (p2)")
-		}
-		// NotFound only for sql.ErrNoRows (whichever way the test is written: ==, != with the
-		// branches exchanged, errors.Is); success returns the scanned bytes
-		r.Rule("C19.R2")
-		c19ReadClasses(r, fg)
-		r.Rule("C19.R3")
-		// every error of the row gates the success return; the scan must be among them (Scan
-		// also reports the error deferred from the query, so a separate row.Err() test is optional)
-		r.ErrorsGate(fg, "getLatestSTH:errors", "(*sql.Row).*", 1)
-		r.Check("getLatestSTH:errors.scan", len(CallsTo(fg, "(*sql.Row).Scan")) >= 1, r.FnPos(fg), "the row is read with (*sql.Row).Scan, whose error is among the gated ones")
-	}
-}
-
-func c19GetSTH(r *Run, fn *ssa.Function) {
-	r.Rule("C19.R4")
-	r.ErrorsGate(fn, "GetSTH:errors", "*", 3)
-	for _, ret := range successReturns(fn) {
-		v := RetVals(ret.(*ssa.Return))
-		r.Check("GetSTH:result", glob(c19Sign+"(p0, "+c19Wit+".parse(p0, "+c19Get+"#0, p1)#0)#0", r.D.D(v[0])), r.Where(ret), "GetSTH returns "+r.D.D(v[0]))
-	}
-	if g := r.OneCall(fn, "GetSTH:getLatestSTH", c19Wit+".getLatestSTH"); g != nil {
-		r.ExpectArg(g, "GetSTH:getLatestSTH.logID", 2, "p1")
-	}
-}
+// c19Update, c19GetSTH (R2 / R3 / R4) and c19Parse (R5) are in rules_t6c19.go: they are decided on
+// "the function binds a verified tree head", whichever way the verification is written.
 
 // ---- R5: parse, signSTH, verifier --------------------------------------------------------
-
-func c19Parse(r *Run, fn *ssa.Function) {
-	r.Rule("C19.R5")
-	succ := successReturns(fn)
-	if !r.Check("parse:success-returns", len(succ) == 1, r.FnPos(fn), fmt.Sprintf("%d nil-error returns", len(succ))) {
-		return
-	}
-	r.MustGuard(fn, "parse:log-known", "p0.Logs[p2]#1", "F", succ, "nil-error return")
-	r.ErrorsGate(fn, "parse:errors", "*", 3)
-	um := r.OneCall(fn, "parse:json", "json.Unmarshal")
-	vs := r.OneCall(fn, "parse:verify", "(ct.SignatureVerifier).VerifySTHSignature")
-	if vs == nil {
-		return
-	}
-	r.ExpectArg(vs, "parse:verify.key", 0, "p0.Logs[p2]#0 || &(p0.Logs[p2]#0)")
-	sth := baseAlloc(CallArgs(vs)[1])
-	r.Check("parse:verify.sth", sth != nil && um != nil && baseAlloc(CallArgs(um)[1]) == sth, r.Where(vs), "the signature is checked on the STH decoded from the input")
-	if um != nil {
-		r.ExpectArg(um, "parse:json.input", 0, "p1")
-	}
-	r.Check("parse:returns-verified", sth != nil && baseAlloc(RetVals(succ[0].(*ssa.Return))[0]) == sth, r.Where(succ[0]), "parse returns the STH whose signature was verified")
-	// log-ID agreement
-	id := r.OneCall(fn, "parse:logID-decode", "(*ct.SHA256Hash).FromBase64String")
-	if id == nil || sth == nil {
-		return
-	}
-	r.ExpectArg(id, "parse:logID-decode.input", 1, "p2")
-	idAlloc := baseAlloc(CallArgs(id)[0])
-	// the two tests on the decoded STH's log ID: against the requested ID and against the
-	// zero ID — as bytes.Equal over the full arrays or as array comparison, either polarity
-	var eqID, eqEmpty []c19ArrEq
-	sthID := r.D.allocName(sth) + ".LogID"
-	for _, t := range c19ArrayEqs(r, fn) {
-		other := t.Y
-		if t.TX != sthID {
-			other = t.X
-			if t.TY != sthID {
-				continue
-			}
-		}
-		oa, zero := c19ArrSource(other)
-		switch {
-		case zero:
-			eqEmpty = append(eqEmpty, t)
-		case CopyOf(oa, idAlloc):
-			eqID = append(eqID, t)
-		case oa != nil && len(WholeStores(oa)) == 0 && len(ElemStores(oa)) == 0 && !c19Escapes(oa):
-			eqEmpty = append(eqEmpty, t)
-		}
-	}
-	if !r.Check("parse:logID-tests", len(eqID) == 1 && len(eqEmpty) == 1, r.FnPos(fn), fmt.Sprintf("STH log ID compared with the requested ID (%d) and with the zero ID (%d)", len(eqID), len(eqEmpty))) {
-		return
-	}
-	fill := r.StoresTo(fn, "&("+r.D.allocName(sth)+".LogID)")
-	r.ClassTable(fn, "parse:logID", nil, []RuleAtom{{Name: "empty", Pat: eqEmpty[0].Key}, {Name: "same", Pat: eqID[0].Key}},
-		[]string{"absent", "same", "different"},
-		func(v map[string]string) string {
-			switch {
-			case v["empty"] == eqEmpty[0].Eq:
-				return "absent"
-			case v["same"] == eqID[0].Eq:
-				return "same"
-			}
-			return "different"
-		},
-		func(class string, v map[string]string, reach *Reach) string {
-			ok := reach.Has(succ[0])
-			filled := false
-			for _, st := range fill {
-				if reach.Has(st) {
-					filled = true
-					if !CopyOf(baseAlloc(st.Val), idAlloc) {
-						return "LogID filled with " + r.D.D(st.Val) + ", not the requested ID"
-					}
-				}
-			}
-			switch class {
-			case "absent":
-				// on acceptance the STH carries the requested log ID: it was filled in, or the
-				// (zero) ID it carries was found equal to the requested one
-				if !ok || !filled && v["same"] != eqID[0].Eq {
-					return fmt.Sprintf("absent log ID must be filled in and accepted (accepted=%v filled=%v)", ok, filled)
-				}
-			case "same":
-				if !ok || filled {
-					return fmt.Sprintf("matching log ID must be accepted unchanged (accepted=%v rewritten=%v)", ok, filled)
-				}
-			case "different":
-				if ok {
-					return "an STH naming another log reaches the nil-error return"
-				}
-			}
-			return ""
-		})
-}
 
 func c19Sig(r *Run) {
 	r.Rule("C19.R5")
